@@ -181,6 +181,28 @@ Proof.
 Qed.
 Print Assumptions C18_conversion_shapes.
 
+(* the sequence branch applies to EVERY Sequence that is not a str - UserList, GOLEM's Generation,
+   deque, user-defined Sequence classes (VUserSeq kind) - exactly as to lists and tuples: the result
+   is a list of converted graphs; empty ones and those not led by a graph are untouched *)
+Theorem C18_other_sequences : forall (G M : Type) (cvA : G -> G) (cvR : G -> option M -> G) k kd g g2 c m s,
+  k <> AIdentity ->
+  restore_total cvR k (VUserSeq kd [VGraph KOpt g; VGraph KOpt g2]) =
+    VSeq [VGraph (dom_tag k) (cvR g None); VGraph (dom_tag k) (cvR g2 None)] /\
+  restore_total cvR k (VUserSeq kd [VInd KOpt g m]) = VSeq [VGraph (dom_tag k) (cvR g (Some m))] /\
+  restore_total cvR k (VUserSeq kd []) = VUserSeq kd [] /\
+  restore_total cvR k (VUserSeq kd [VScalar s; VNone]) = VUserSeq kd [VScalar s; VNone] /\
+  adapt_total cvA k (VUserSeq kd [] : @val G M) = VUserSeq kd [] /\
+  (is_dom_exact k (VGraph c g : @val G M) = true ->
+     adapt_total cvA k (VUserSeq kd [VGraph c g] : @val G M) = VSeq [VGraph KOpt (cvA g)]) /\
+  (forall v : @val G M, restorable k v = true -> restore cvR k v = Ok (restore_total cvR k v)).
+Proof.
+  intros G M cvA cvR k kd g g2 c m s Hk.
+  repeat split; try (intros v; apply restore_total_ok);
+    destruct k; try contradiction; cbn; try reflexivity;
+    intros H; destruct c; cbn in *; try discriminate; reflexivity.
+Qed.
+Print Assumptions C18_other_sequences.
+
 (* adapt_func of a function that is not native: it is called with restore of every positional
    and keyword argument, its result goes through adapt (None -> None, tuple -> item-wise) *)
 Theorem C18_adapt_func_spec : forall (G M : Type) (cvA : G -> G) (cvR : G -> option M -> G)
